@@ -424,8 +424,20 @@ func TestC17(t *testing.T) {
 				return map[string]any{"layer": layer, "items": n, "pageSize": pageSize, "filter": filter, "expected": want, "pages": pages}
 			})
 		}
+		// a write between two page requests: an account that sorts before everything already listed comes into
+		// existence after the first page was read. The traversal started earlier; it must go on listing what it
+		// set out to list (v2 lists read as of the instant of their first request)
+		interleave := layer == "L3-v2-accounts" && filter == "" && rapid.Bool().Draw(rt, "writeBetweenPages")
+		if interleave {
+			labels = append(labels, "write-between-pages")
+		}
 		p := w.First()
 		for i := 0; ; i++ {
+			if i == 1 && interleave {
+				born := time.Now().Add(time.Hour)
+				accounts.Rows = append(accounts.Rows, sqlrec.Row{"seq": int64(9000), "address": "aaa:born-later", "metadata": []byte(`{}`), "insertion_date": born})
+				accMeta.Rows = append(accMeta.Rows, sqlrec.Row{"accounts_seq": int64(9000), "revision": int64(1), "date": born, "metadata": []byte(`{}`)})
+			}
 			if len(eng.Unhandled) > 0 {
 				record()
 				harnessError(rt, "mini engine cannot serve: %s", clip(eng.Unhandled[0]))
